@@ -55,6 +55,8 @@ def run_checks(patch, checks, tier):
             return {"apply_failed": out}
         results = {}
         t0 = time.time()
+        if len(checks) == 1:
+            checks = list(checks) + ["C11" if checks[0] != "C11" else "C10"]      # (RESULT lines are printed in multi-check mode)
         rc, out = sh("./check %s --tier %s" % (",".join(checks), tier), cwd=VERIF, env={"VERIF_REPO": scratch, "VERIF_EVIDENCE_DIR": scratch + "-evidence"}, timeout=7200)
         cur = None
         whys = {}
